@@ -217,7 +217,15 @@ def check_graph_inputs(case, rec):
         require(graph_snapshot(g) == s0 and all(np.array_equal(opmap[k], om0[k]) for k in om0) and list(qd) == qd0,
                 'mutating the MPO built by from_opgraph altered the graph, the operator map or the charge list')
         # a second graph added to a copy: the other graph is untouched (C16 judges the meaning)
-        h = build_graph(gd)
+        hd = gd
+        if case['opseed'] % 3 == 0:
+            # the other graph with node and edge ids disjoint from those of the first (nothing would have to be renamed except the
+            # terminal nodes): it must still be left untouched and share no objects with the sum
+            hd = dict(gd, nodes=[[n[0] + 1000] + list(n[1:]) for n in gd['nodes']],
+                      edges=[[e[0] + 5000, e[1] + 1000, e[2] + 1000, e[3]] for e in gd['edges']],
+                      term=[gd['term'][0] + 1000, gd['term'][1] + 1000])
+            rec.label('add_disjoint_ids')
+        h = build_graph(hd)
         hs = graph_snapshot(h)
         g2 = copy.deepcopy(g)
         g2.add(h)
